@@ -1,4 +1,5 @@
 mod c07;
+mod c13;
 mod c20;
 mod pki;
 mod sess;
@@ -37,6 +38,7 @@ fn main() {
     match property.as_str() {
         "C20" => c20::run(&mut ctx),
         "C07" => c07::run(&mut ctx),
+        "C13" => c13::run(&mut ctx),
         other => { eprintln!("unknown property {other}"); std::process::exit(2); }
     }
     let rep = ctx.report(&property, start.elapsed().as_secs_f64());
